@@ -8,6 +8,7 @@ package main
 
 import (
 	"bufio"
+	"bytes"
 	"context"
 	"crypto/tls"
 	"fmt"
@@ -204,6 +205,11 @@ func (o *e2eOrigins) serveRaw(c net.Conn) {
 
 // ---------- client side ----------
 
+// plainWriter hides bytes.Buffer's ReadFrom so that io.Copy uses its own 32 KiB buffer
+type plainWriter struct{ b *bytes.Buffer }
+
+func (p plainWriter) Write(x []byte) (int, error) { return p.b.Write(x) }
+
 type netRead struct {
 	b   []byte
 	err string
@@ -291,13 +297,28 @@ func driveE2E(u *unitCase) (o obs) {
 		url := theOrigins.url(u.Stack, id)
 		if u.HighLevel {
 			// the public API: Client.R().Get + Response.Bytes() (io.ReadAll on the decoded body)
-			resp, err := cl.R().SetContext(ctx).Get(url)
+			// ... or the download path (middleware handleDownload: io.Copy into the caller's writer -
+			// bytes.Buffer.ReadFrom fills consecutive regions of its array, a plain writer gets io.Copy's
+			// 32 KiB buffer)
+			rq := cl.R().SetContext(ctx)
+			var buf bytes.Buffer
+			switch u.HLMode {
+			case "buffer":
+				rq.SetOutput(&buf)
+			case "writer":
+				rq.SetOutput(plainWriter{&buf})
+			}
+			resp, err := rq.Get(url)
 			if err != nil {
 				o.Fatal = "request failed: " + err.Error()
 				return
 			}
 			o.Kind = "highlevel"
-			o.Out = resp.Bytes()
+			if u.HLMode == "buffer" || u.HLMode == "writer" {
+				o.Out = buf.Bytes()
+			} else {
+				o.Out = resp.Bytes()
+			}
 			o.EndErr = "EOF"
 		} else {
 			hr, _ := http.NewRequestWithContext(ctx, "GET", url, nil)
@@ -393,7 +414,7 @@ func (w *world) endToEnd() {
 			segs = splitAt(d.Body, []int{hk.Pick(rnd, io), hk.Pick(rnd, io) + rnd.Intn(9)})
 		}
 		u := &unitCase{Kind: "e2e", Doc: d, Set: sets[i%len(sets)], Chunks: segs, Pattern: hk.Pick(rnd, sizePatterns[3:]),
-			BufMode: hk.Pick(rnd, []string{"zero", "stale-meta", "reuse"}), FailAt: -1, Stack: e2eStacks[i%len(e2eStacks)], GapMS: 6, HighLevel: i%6 == 5}
+			BufMode: hk.Pick(rnd, []string{"zero", "stale-meta", "reuse"}), FailAt: -1, Stack: e2eStacks[i%len(e2eStacks)], GapMS: 6, HighLevel: i%6 == 5, HLMode: []string{"bytes", "buffer", "writer"}[(i/6)%3]}
 		w.eval(u, len(d.Body) <= 1600)
 	}
 }
